@@ -234,6 +234,8 @@ Inductive op :=
 Definition pick_uid (w : st) (u : uspec) : st * nat :=
   match u with UFresh => take_fresh w | USame e => (w, euid (E w e)) end.
 
+Definition uspec_ok (w : st) (u : uspec) : bool := match u with UFresh => true | USame e => Nat.ltb e (n w) end.
+
 Definition usable (w : st) (e : nat) (k : kind) : bool := Nat.ltb e (n w) && alive w e && kind_eqb (ekind (E w e)) k.
 
 (* copy of the data children of an object, building children_map *)
@@ -325,7 +327,7 @@ Definition sweep (w : st) (ws : nat) (k : kind) : st :=
 Definition step (c : cfg) (w : st) (a : op) : st * outcome :=
   match a with
   | OCreate ws isobj parent u =>
-      if usable w parent KGroup && Nat.eqb (ews (E w parent)) ws then
+      if usable w parent KGroup && Nat.eqb (ews (E w parent)) ws && uspec_ok w u then
         let k := if isobj then KObject else KGroup in
         let cls := if isobj then 2 else 1 in
         let (w0, uid) := pick_uid w u in
@@ -333,12 +335,12 @@ Definition step (c : cfg) (w : st) (a : op) : st * outcome :=
         let '(w2, o, _) := construct c w1 ws k cls parent uid t [] in (w2, o)
       else (w, BadOp)
   | OData obj u =>
-      if usable w obj KObject then
+      if usable w obj KObject && uspec_ok w u then
         let (w0, uid) := pick_uid w u in
         let '(w2, o, _) := construct c w0 (ews (E w obj)) KData 3 obj uid 0 [] in (w2, o)
       else (w, BadOp)
   | OPg obj ds u =>
-      if usable w obj KObject then
+      if usable w obj KObject && uspec_ok w u then
         let (w0, uid) := pick_uid w u in
         let ps := map (fun d => euid (E w d)) (filter (fun d => memb d (ech (E w obj)) && kind_eqb (ekind (E w d)) KData) ds) in
         let '(w2, o, _) := construct c w0 (ews (E w obj)) KPG 4 obj uid 0 ps in (w2, o)
